@@ -191,6 +191,11 @@ def run(prog: Program, rep: Report, tier: str):
                    "def transform_and_log_det(self, x, condition=None):\n"
                    "    y, grad = eqx.filter_value_and_grad(self.fn)(x)\n"
                    "    return y, jnp.log(jnp.abs(grad))\n", "(fn(x), log|fn'(x)|)")
+    # the factors of the log-space product: each layer's log-Jacobian callable reads the diagonal blocks, in order
+    from .c05 import rule_param_ctors
+    rule_param_ctors(prog, rep, "C02.param-shape", declare=True)
+    from .c09 import rule_bnaf_logjac_blocks
+    rule_bnaf_logjac_blocks(prog, rep, "C02.bnaf-blocks")
     # sum of the transformer log-dets is log|det J| only for a triangular Jacobian: the last MADE layer is strict
     from .c09 import rule_made_masks
     rule_made_masks(prog, rep, R="C02.triangular")
